@@ -10,6 +10,7 @@
 # information at https://github.com/ddsmt/ddSMT/blob/master/LICENSE.
 
 import io
+import os
 import typing
 
 from .nodes import Node
@@ -258,9 +259,22 @@ def write_smtlib(file: typing.TextIO, exprs: typing.List[Node]):
 
 
 def write_smtlib_to_file(filename: str, exprs: typing.List[Node]):
-    """Use ``write_smtlib`` to write to a filename."""
-    with open(filename, 'w') as file:
-        write_smtlib(file, exprs)
+    """Use ``write_smtlib`` to write to a filename.
+
+    The new content is written to a temporary file in the same directory,
+    which then atomically replaces ``filename``. At every instant (and after
+    an interrupt at any point) ``filename`` thus holds either its previous
+    or its new content completely, never an empty or truncated file.
+    """
+    tmpname = f'{filename}.tmp-{os.getpid()}'
+    try:
+        with open(tmpname, 'w') as file:
+            write_smtlib(file, exprs)
+        os.replace(tmpname, filename)
+    except BaseException:
+        if os.path.exists(tmpname):
+            os.unlink(tmpname)
+        raise
 
 
 def write_smtlib_to_str(exprs: typing.List[Node]):
